@@ -424,7 +424,7 @@ func (prop) Generate(rng *core.Rand, tier string, emit func(string)) {
 	}
 	g := &gen{rng: rng.Fork()}
 	g.strOps(n*2, emit)
-	emit("idrace " + strconv.Itoa(100+rng.Intn(100)))
+
 	for i := 0; i < n; i++ {
 		line := g.history(maxSteps)
 		if len(line) > 60000 {
@@ -435,4 +435,8 @@ func (prop) Generate(rng *core.Rand, tier string, emit func(string)) {
 			emit(fmt.Sprintf("cas %d %d", 2+rng.Intn(5), 2+rng.Intn(6)))
 		}
 	}
+	// last: if the lock discipline is broken these can end in a fatal "concurrent map read and
+	// map write", which takes the process (and whatever was still to run) with it
+	emit("idrace " + strconv.Itoa(100+rng.Intn(100)))
+	emit("peek " + strconv.Itoa(2+rng.Intn(4)) + " " + strconv.Itoa(100+rng.Intn(100)))
 }
